@@ -270,6 +270,17 @@ class BodyTr:
                 # first component is column 0, second column 1
                 s.lanes = {t.elts[0].id: 'u', t.elts[1].id: 'v'}
                 return self.body(rest)
+            if isinstance(t, ast.Tuple) and isinstance(st.value, ast.Tuple) and len(t.elts) == len(st.value.elts) \
+                    and all(isinstance(e, ast.Name) for e in t.elts):
+                # a, b = e1, e2  (right-hand sides are evaluated before any binding)
+                rhss = [self.rhs(e) for e in st.value.elts]
+                names = [s.fresh(e.id) for e in t.elts]
+                for e, v in zip(t.elts, names):
+                    s.env[e.id] = v
+                node = self.body(rest)
+                for v, r in reversed(list(zip(names, rhss))):
+                    node = Let(v, r, node)
+                return node
             if isinstance(t, ast.Name):
                 rhs = self.rhs(st.value)
                 v = s.fresh(t.id)
